@@ -4,9 +4,11 @@ import (
 	"encoding/json"
 	"errors"
 	"fmt"
+	"io"
 	"math"
 	"reflect"
 	"strings"
+	"time"
 
 	"github.com/shiwano/errdef"
 	"github.com/shiwano/errdef/resolver"
@@ -38,6 +40,18 @@ func init() {
 				n = 5000
 			}
 			var out []Case
+			// corpus (minimised inputs of earlier failures / seeded changes, run before the random programs):
+			// foreign causes whose MESSAGE equals a registered kind - a leaf, a wrapper around a leaf, a
+			// custom single/multi unwrapper - must come back as foreign causes, never as the definition
+			for _, strict := range []bool{false, true} {
+				for _, ty := range []string{"errors", "leaf"} {
+					out = append(out, runC09(c09Desc{Strict: strict, Prog: []PStmt{
+						{T: "define", Kind: "kind1", Opts: []POpt{{T: "notrace"}}}, {T: "define", Kind: "kind2"},
+						{T: "leaf", Msg: "kind1", Ty: ty}, {T: "wrap", F: 1, C: ip(0)},
+						{T: "single", Msg: "kind2", C: ip(0)}, {T: "join", F: 0, Cs: []*int{ip(2), nil, ip(0)}},
+						{T: "new", F: 0, Msg: "kind2"}, {T: "wrap", F: 1, C: ip(4)}}}))
+				}
+			}
 			for i := 0; i < n; i++ {
 				cfg := p1Cfg{MaxStmts: 6 + i*8/n, Keys: c09Keys, Trace: i%3 == 0, JSONSafe: true}
 				p := genProgFields(r, cfg)
@@ -96,6 +110,100 @@ func init() {
 			return []Case{runC09(d)}, nil
 		},
 	})
+}
+
+// c09Options: the registration options of the unmarshaler, on two fixed round trips
+var (
+	c09OptDef   = errdef.Define("c09-options", errdef.StackDepth(1))
+	c09SentA    = errors.New("c09 sentinel a")
+	c09SentB    = &leafErr{msg: "c09 sentinel b"}
+	c09SentHost = errdef.Define("c09-sentinel-host", errdef.NoTrace())
+)
+
+func c09Options(strict bool) (ok bool, note string) {
+	ok = true
+	defer func() {
+		if p := recover(); p != nil {
+			ok, note = false, fmt.Sprintf("options round trip panicked: %v", p)
+		}
+	}()
+	fail := func(format string, a ...any) { ok = false; note += fmt.Sprintf(format, a...) + "; " }
+	// 1. every built-in field (LogLevel is finding K2)
+	det := errdef.Details{"k": "v", "n": 1.5}
+	e := c09OptDef.WithOptions(errdef.HTTPStatus(404), errdef.TraceID("trace-1"), errdef.Domain("dom"), errdef.UserHint("hint"),
+		errdef.Public(), errdef.Retryable(), errdef.RetryAfter(3*time.Second), errdef.Unreportable(), errdef.ExitCode(3),
+		errdef.HelpURL("http://h/x"), det).New("all builtins")
+	b, err := json.Marshal(e)
+	if err != nil {
+		fail("marshal: %v", err)
+		return
+	}
+	uopts := []unmarshaler.Option{unmarshaler.WithBuiltinFields()}
+	if strict {
+		uopts = append(uopts, unmarshaler.WithStrictMode())
+	}
+	r, err := unmarshaler.NewJSON(resolver.New(c09OptDef), uopts...).Unmarshal(b)
+	if err != nil {
+		fail("builtin round trip (strict=%v): %v", strict, err)
+	} else {
+		same := func(name string, a, b any, oka, okb bool) {
+			if oka != okb || !reflect.DeepEqual(a, b) {
+				fail("%s: %v,%v -> %v,%v", name, a, oka, b, okb)
+			}
+		}
+		a1, o1 := errdef.HTTPStatusFrom(e)
+		a2, o2 := errdef.HTTPStatusFrom(r)
+		same("http_status", a1, a2, o1, o2)
+		s1, p1 := errdef.TraceIDFrom(e)
+		s2, p2 := errdef.TraceIDFrom(r)
+		same("trace_id", s1, s2, p1, p2)
+		s1, p1 = errdef.DomainFrom(e)
+		s2, p2 = errdef.DomainFrom(r)
+		same("domain", s1, s2, p1, p2)
+		s1, p1 = errdef.UserHintFrom(e)
+		s2, p2 = errdef.UserHintFrom(r)
+		same("user_hint", s1, s2, p1, p2)
+		s1, p1 = errdef.HelpURLFrom(e)
+		s2, p2 = errdef.HelpURLFrom(r)
+		same("help_url", s1, s2, p1, p2)
+		same("public", errdef.IsPublic(e), errdef.IsPublic(r), true, true)
+		same("retryable", errdef.IsRetryable(e), errdef.IsRetryable(r), true, true)
+		same("unreportable", errdef.IsUnreportable(e), errdef.IsUnreportable(r), true, true)
+		d1, q1 := errdef.RetryAfterFrom(e)
+		d2, q2 := errdef.RetryAfterFrom(r)
+		same("retry_after", d1, d2, q1, q2)
+		c1, r1 := errdef.ExitCodeFrom(e)
+		c2, r2 := errdef.ExitCodeFrom(r)
+		same("exit_code", c1, c2, r1, r2)
+		m1, t1 := errdef.DetailsFrom(e)
+		m2, t2 := errdef.DetailsFrom(r)
+		same("details", map[string]any(m1), map[string]any(m2), t1, t2)
+		for range r.UnknownFields() {
+			fail("a built-in field came back unknown")
+		}
+	}
+	// 2. several sentinel options
+	j := c09SentHost.Join(io.EOF, c09SentA, c09SentB)
+	b, err = json.Marshal(j)
+	if err != nil {
+		fail("marshal join: %v", err)
+		return
+	}
+	sopts := []unmarshaler.Option{unmarshaler.WithStandardSentinelErrors(), unmarshaler.WithSentinelErrors(c09SentA), unmarshaler.WithSentinelErrors(c09SentB)}
+	if strict {
+		sopts = append(sopts, unmarshaler.WithStrictMode())
+	}
+	rj, err := unmarshaler.NewJSON(resolver.New(c09SentHost), sopts...).Unmarshal(b)
+	if err != nil {
+		fail("sentinel round trip: %v", err)
+	} else {
+		for _, s := range []error{io.EOF, c09SentA, c09SentB} {
+			if !errors.Is(rj, s) {
+				fail("errors.Is(restored, %v) lost", s)
+			}
+		}
+	}
+	return
 }
 
 // nilSliceValue: pool index of []int(nil)
@@ -384,7 +492,11 @@ func runC09(d c09Desc) Case {
 			}
 		}
 	}
-	coq := fmt.Sprintf("{| c_prog := %s; c_cfg := %s; c_vtab := %s; c_obs := %s |}", w.coqProg(), cfgCoq, cList(vt), cList(obs))
+	optsOK, optsNote := c09Options(d.Strict)
+	if !optsOK {
+		panics = append(panics, optsNote)
+	}
+	coq := fmt.Sprintf("{| c_prog := %s; c_cfg := %s; c_vtab := %s; c_obs := %s; c_options := %s |}", w.coqProg(), cfgCoq, cList(vt), cList(obs), cBool(optsOK))
 	o := fmt.Sprintf("%d round trips", len(obs))
 	if len(panics) > 0 {
 		o += fmt.Sprintf("; PANICS: %v", panics)
